@@ -557,6 +557,84 @@ def sincos(L):
     return _trig_pair(L)
 
 
+def in_ideal(D, gens, max_cols=2500):
+    """Is D = sum g_i * gens_i for polynomials g_i with deg(g_i) <= deg(D) - deg(gens_i)?  Decided by linear algebra over Q
+    (the unknowns are the coefficients of the g_i).  All atoms - plain, defined or function symbols - are indeterminates,
+    so a positive answer means D vanishes wherever every generator does; a negative answer means nothing (the test is
+    complete only up to the degree bound).  D and the generators must be free of negative exponents."""
+    D = D.norm() if D.has_defined() else D
+    if D.zero():
+        return True
+    gens = [g for g in gens if g is not None and not g.zero() and is_poly(g)]
+    if not gens or not is_poly(D):
+        return False
+
+    def deg(p):
+        return max(sum(e for _, e in m) for m in p.t)
+    dD = deg(D)
+    vars_ = sorted(set(v for p in [D] + gens for m in p.t for v, _ in m))
+
+    def monos(d):
+        out = [()]
+        frontier = [()]
+        for _ in range(d):
+            nxt = set()
+            for m in frontier:
+                last = m[-1][0] if m else -1
+                for v in vars_:
+                    mm = _mmul(m, ((v, 1),))
+                    nxt.add(mm)
+            frontier = sorted(nxt)
+            out.extend(frontier)
+        return sorted(set(out))
+    cols = []
+    for g in gens:
+        k = dD - deg(g)
+        if k < 0:
+            continue
+        for m in monos(k):
+            cols.append(g.rawmul(El({m: Fr(1)})))
+            if len(cols) > max_cols:
+                return False
+    if not cols:
+        return False
+    # Gaussian elimination on the monomial-indexed system  sum c_j cols_j = D
+    rows = {}
+    for j, cpoly in enumerate(cols):
+        for m, c in cpoly.t.items():
+            rows.setdefault(m, {})[j] = c
+    rhs = dict(D.t)
+    if any(m not in rows for m in rhs):
+        return False
+    eqs = []
+    for m, r in rows.items():
+        eqs.append((dict(r), rhs.get(m, Fr(0))))
+    piv = {}
+    for r, b in eqs:
+        # reduce by existing pivots
+        while True:
+            cand = [j for j in r if j in piv]
+            if not cand:
+                break
+            j = min(cand)
+            pr, pb = piv[j]
+            f = r[j] / pr[j]
+            for jj, cc in pr.items():
+                x = r.get(jj, 0) - f * cc
+                if x == 0:
+                    r.pop(jj, None)
+                else:
+                    r[jj] = x
+            b = b - f * pb
+        if not r:
+            if b != 0:
+                return False
+            continue
+        j0 = min(r.keys())
+        piv[j0] = (r, b)
+    return True
+
+
 def deep_substitute(e, mapping, _memo=None):
     """replace base atoms (by id) with elements EVERYWHERE, also inside the arguments of function symbols, radicands and
     denominators (the defined atoms are rebuilt from their substituted definitions, so x/1, sqrt(1), sin(0) ... simplify)"""
